@@ -40,15 +40,29 @@ def jobs(tier):
     else:
         js = streams.f1_jobs(allk, 1) + streams.f1_jobs(allk, 2, per_job=6) + streams.f1_jobs(CRITICAL, 3, per_job=2)
         js += streams.f2_jobs(7) + streams.f3_jobs(4)
+    # SEG: the same comparison with the stream delivered in two reads (every cut) and byte-at-a-time: the
+    # RFC reading of a stream does not depend on segmentation (the relational form of this is C02)
+    for nm in allk:
+        js.append(dict(name="SEG:%s" % nm, family="SEG", skeleton=nm))
     return js
 
 
 def make_inputs(job):
-    return {"stream": streams.make_stream(job)}
+    if job["family"] == "SEG":
+        sk = streams.K[job["skeleton"]]
+        c = E().choose(len(sk), "cut")  # 0 = byte-at-a-time, otherwise one cut at c
+        return {"stream": sk, "cuts": list(range(1, len(sk))) if c == 0 else [c]}
+    return {"stream": streams.make_stream(job), "cuts": []}
 
 
 def scenario(ns, inputs):
-    return framing.impl_events(ns, [inputs["stream"]])
+    s = inputs["stream"]
+    pieces, last = [], 0
+    for c in inputs.get("cuts", []):
+        pieces.append(s[last:c])
+        last = c
+    pieces.append(s[last:])
+    return framing.impl_events(ns, pieces, service="each")
 
 
 def oracle(inputs, obs):
